@@ -526,6 +526,16 @@ func OpBegin(op int32, objs []int32, next []int32) {
 	t.inOp = true
 }
 
+// ResetOpSteps restarts the per-operation step budget of the current task
+// (used by the harness between the items of a sequential phase).
+//
+//go:norace
+func ResetOpSteps() {
+	if on && !aborted {
+		tasks[cur].opSteps = 0
+	}
+}
+
 //go:norace
 func OpEnd() {
 	if !on || aborted {
